@@ -2,7 +2,11 @@
 //!
 //!   opwv replay <generator> <in.ndjson> <out.ndjson>   spec -> impl (B1)
 //!   opwv record <what> <out.ndjson>                    impl -> spec (B2 / B3)
+mod chain;
+mod lattice;
 mod limits;
+mod oracle;
+mod robots;
 mod util;
 
 fn main() {
@@ -15,6 +19,8 @@ fn main() {
         ("replay", "limits") => limits::replay(&args[3], &args[4]),
         ("record", "limits") => limits::record_limits(&args[3]),
         ("record", "samples") => limits::record_samples(&args[3]),
+        ("replay", "chain") => chain::replay(&args[3], &args[4]),
+        ("record", "fk") => chain::record(&args[3]),
         _ => {
             eprintln!("unknown command {:?}", &args[1..]);
             std::process::exit(2);
